@@ -413,9 +413,15 @@ impl<'a> Index<'a> {
                 for s in uses {
                     let uses_path_str = s.as_str();
                     uses_builder.push(uses_path_str);
+                    // a target declared with a trailing slash ("core/") names the same
+                    // directory as "core", so look the entry up with exactly one trailing slash
+                    let uses_dir = format!(
+                        "{}/",
+                        uses_path_str.strip_suffix('/').unwrap_or(uses_path_str)
+                    );
                     let matching_targets: Vec<String> = targets_trie
-                        .common_prefix_search(uses_path_str)
-                        .filter(|t: &String| is_path_prefix(t, uses_path_str))
+                        .common_prefix_search(&uses_dir)
+                        .filter(|t: &String| is_path_prefix(t, &uses_dir))
                         .collect();
                     use2targets.entry(s).or_default().push(target_path_str);
                     // a dependency has been established between this target and some
